@@ -5,10 +5,13 @@
 //! (b) stream: the real `DnsMultiplexer` over a scripted `DnsClientStream`, polled by hand, all
 //!     event interleavings by breadth-first search with state matching (`mux.rs`).
 //!
+//! (c) exchange: `DnsExchange` + `DnsExchangeBackground` on top of that multiplexer (`ex.rs`).
+//!
 //! Both oracles are written from the statement in /verif/properties.jsonl and read raw bytes
 //! with the independent walker `vref::wire`; scripted messages are assembled by hand
 //! (`wirekit.rs`), never by hickory's encoder.
 
+mod ex;
 mod mux;
 mod udp;
 mod wirekit;
@@ -36,6 +39,19 @@ fn main() {
                             eprintln!("[C16] replay: {} - the recorded history is not executable on this tree, nothing to judge", f.what)
                         }
                         Err((step, f)) => mux::report(&ctx, l, cfg, &hist, step, f),
+                        Ok(_) => {}
+                    }
+                });
+            }
+            Some("exchange") => {
+                let Some((cfg, hist)) = ex::case_from_json(&case) else { vcore::machinery_exit("bad exchange replay case") };
+                ctx.with_local(|l| {
+                    l.eval();
+                    match ex::replay(cfg, &hist, Some(l)) {
+                        Err((_, f)) if f.key == ex::NOT_ENABLED => {
+                            eprintln!("[C16] replay: {} - the recorded history is not executable on this tree, nothing to judge", f.what)
+                        }
+                        Err((step, f)) => ex::report(&ctx, l, cfg, &hist, step, f),
                         Ok(_) => {}
                     }
                 });
@@ -80,7 +96,22 @@ fn main() {
          registered and no self-wake was recorded => stream-lost-wakeup:<what was read last>; a response for a pending \
          request (or the close) is available while no poll is due and nobody is registered => \
          stream-response-not-delivered:wake-driven / stream-closed-connection-request-not-failed:wake-driven. Extra wake-ups \
-         and self-wakes are always allowed; in these families the reference follows what was actually read. states/transitions/traces_validated_against_impl are sums over both parts: \
+         and self-wakes are always allowed; in these families the reference follows what was actually read. EXTENSIONS. (a) 23 datagram kinds (added: other class, parent of the asked name, IPv4-compatible ::a.b.c.d source, \
+         reply with an extra 700-byte record; two-question requests: only the last question, questions reversed, name of the \
+         first with type of the second) and 8 client configurations that each vary one dimension (IPv6 server with same \
+         address/other scope id as 'other spelling'; server given as v4-mapped address answered from plain IPv4; two questions \
+         sent in mixed case by DnsRequest::new; 512-byte receive buffer - the socket cuts longer datagrams, the cut bytes are \
+         what is judged; max_retries 1 and 5; retry interval 100/500 ms via floor and request option; 700 ms timeout): default \
+         configuration all schedules of length <= 4 (thorough 5) over 61 symbols, every other one length <= 3 (thorough 4), \
+         enumerated depth-first over well-formed prefixes. (b) messages with a pending id and TC / SERVFAIL / NOTIFY / UPDATE \
+         opcode / a foreign question must reach the request like any response (routing is by id), a QR=0 message with a \
+         pending id may be dropped or delivered but reaches nobody else. (c) DnsExchange + DnsExchangeBackground over the \
+         same multiplexer and scripted stream: events request (through the handle) / drop handle / drop response stream i / \
+         deliver / unknown id / undecodable / stream error / stream end / timer i / poll-background, classic and wake-driven \
+         (the request channel, the stream and the timers wake the background future; it is dropped when it completes): \
+         same routing reference; once the connection is closed or the background future is gone no submitted request - \
+         including those still waiting in the exchange's channel - stays pending; wake-driven: a submitted request, an \
+         available response or the close are never left behind without a pending wake-up. states/transitions/traces_validated_against_impl are sums over both parts: \
          (b) BFS states and transitions (every transition = one replay of the history on a fresh real multiplexer compared \
          with the reference) + (a) schedules consumed to their end (distinct environment histories reached) / datagrams consumed \
          / schedules executed. Non-trivial = (a) schedules in which a non-matching datagram was consumed before the genuine \
@@ -99,6 +130,7 @@ fn main() {
     });
     udp::run(&ctx);
     mux::run(&ctx);
+    ex::run(&ctx);
 
     // vacuity guards
     for class in [
@@ -116,6 +148,17 @@ fn main() {
         "mux:wake-driven-poll",
         "mux:wd-pending-with-read-waker",
         "mux:burst-responses-received=1",
+        "mux:deliver-odd:tc",
+        "udp:cfg:server-v6:ok",
+        "udp:cfg:two-questions:ok",
+        "udp:cfg:receive-buffer-512:err:attempts-exceeded",
+        "udp:transmissions=5",
+        "ex:response-delivered",
+        "ex:pending-failed-on-close",
+        "ex:request-refused-busy",
+        "ex:request-rejected-after-task-ended",
+        "ex:task-ended-after-shutdown",
+        "ex:wake-driven-poll",
     ] {
         if ctx.outcome_count(class) == 0 {
             ctx.machinery_failure(&format!("vacuous run: outcome class '{class}' was never exercised"));
